@@ -877,6 +877,12 @@ func (w *lcWorld) startFlush() {
 	w.flRes = "parked"
 	w.mu.Unlock()
 	st := w.svStr[w.sc.Streams]
+	if !w.safeToWrite() {
+		w.mu.Lock()
+		w.flRes = "err"
+		w.mu.Unlock()
+		return
+	}
 	w.goCall("fl", func() string {
 		big := make([]byte, 6<<20)
 		if _, err := st.BufferWriter().WriteBytes(big); err != nil {
@@ -897,7 +903,7 @@ func (w *lcWorld) startSend(i int) {
 	w.goCall("w", func() string {
 		// classifier of flush-nil-after-close: the call starts after IsClosed() is true
 		late := w.sv.IsClosed()
-		if streamState(atomic.LoadUint32(&st.state)) != streamClosed {
+		if w.safeToWrite() {
 			// (writing into the BufferWriter of a stream whose session has been torn down touches unmapped memory:
 			// class write-after-teardown-faults, staged in a child process only)
 			st.BufferWriter().WriteString("y")
@@ -921,6 +927,16 @@ func (w *lcWorld) startSend(i int) {
 		}
 		return "ok"
 	})
+}
+
+// writing into a BufferWriter allocates from the shared free lists: only while the buffer memory is certainly mapped
+func (w *lcWorld) safeToWrite() bool {
+	if w.mode == "manual" {
+		mapped := false
+		lcLocked(w.sv, func() { mapped = w.sv.queueManager != nil })
+		return mapped
+	}
+	return !w.sv.IsClosed()
 }
 
 func (w *lcWorld) startStreamClose(i int) {
@@ -1030,8 +1046,12 @@ func (w *lcWorld) checkPanics(step int) {
 	defer w.mu.Unlock()
 	for _, c := range w.calls {
 		if c.finished() && c.panicVal != "" {
-			w.res.Violations = append(w.res.Violations, lcViolation{Kind: "panic", Detail: c.name + ": " + c.panicVal,
-				Schedule: w.sc.Name, Step: step})
+			v := lcViolation{Kind: "panic", Detail: c.name + ": " + c.panicVal, Schedule: w.sc.Name, Step: step}
+			if (c.name == "w" || c.name == "fl") && w.sv.IsClosed() && strings.Contains(c.panicVal, "linkedBuffer).Write") {
+				// a BufferWriter write that raced with / came after the unmap of the teardown (free-running loop only)
+				v.Known = "write-after-teardown-faults"
+			}
+			w.res.Violations = append(w.res.Violations, v)
 			c.panicVal = ""
 		}
 	}
@@ -1690,7 +1710,7 @@ func (w *lcWorld) setupChild() error {
 // witness of write-after-teardown-faults, contained in a child process: both ends of a session are closed and torn
 // down by the real event loop, then the user writes into the BufferWriter of one of its streams
 func (w *lcWorld) childWitness() {
-	spec := lcChildSpec{Role: "write-after-teardown", Sock: filepath.Join(w.dir, w.tag+".sock"), Tag: w.tag, Mem: w.sc.Mem, Streams: 1}
+	spec := lcChildSpec{Role: w.sc.Gate, Sock: filepath.Join(w.dir, w.tag+".sock"), Tag: w.tag, Mem: w.sc.Mem, Streams: 1}
 	js, _ := json.Marshal(spec)
 	cmd := exec.Command(os.Args[0], "-test.run", "^TestVS_LifecycleChild$", "-test.timeout", "300s")
 	cmd.Env = append(os.Environ(), "VS_LC_CHILD="+string(js), "VS_IN_JOB=", "VS_OUT=")
@@ -1701,15 +1721,21 @@ func (w *lcWorld) childWitness() {
 	case strings.Contains(out, "torn-down") && (strings.Contains(out, "unexpected fault address") || strings.Contains(out, "SIGSEGV")):
 		m := ""
 		for _, l := range strings.Split(out, "\n") {
-			if strings.Contains(l, "linkedBuffer") || strings.Contains(l, "allocShmBuffer") || strings.Contains(l, "fault address") {
+			if strings.Contains(l, "linkedBuffer") || strings.Contains(l, "allocShmBuffer") || strings.Contains(l, "fault address") ||
+				strings.Contains(l, "queue).put") || strings.Contains(l, "Stream).Flush") {
 				m += strings.TrimSpace(l) + " | "
 				if len(m) > 500 {
 					break
 				}
 			}
 		}
-		w.res.Violations = append(w.res.Violations, lcViolation{Kind: "fault", Known: "write-after-teardown-faults", Schedule: w.sc.Name,
-			Detail: "both ends closed and torn down, then Stream.BufferWriter().WriteString on a stream of that session: the process dies with " + m})
+		if w.sc.Gate == "flush-races-unmap" {
+			w.res.Violations = append(w.res.Violations, lcViolation{Kind: "fault", Known: "stream-op-races-unmap", Schedule: w.sc.Name,
+				Detail: "Stream.Flush parked inside queue.put (after its state check), Session.Close on both ends, teardown lambda run by the real event loop, Flush released: the process dies with " + m})
+		} else {
+			w.res.Violations = append(w.res.Violations, lcViolation{Kind: "fault", Known: "write-after-teardown-faults", Schedule: w.sc.Name,
+				Detail: "both ends closed and torn down, then Stream.BufferWriter().WriteString on a stream of that session: the process dies with " + m})
+		}
 		w.res.Conforming = true
 	case strings.Contains(out, "survived"):
 		w.res.Conforming = true
@@ -1726,6 +1752,9 @@ func lcMin(a, b int) int {
 }
 
 func lcChildWriteAfterTeardown(spec lcChildSpec) {
+	if spec.Role == "flush-races-unmap" {
+		vsReset(vsGate)
+	}
 	ensureDefaultDispatcherInit()
 	cconn, sconn, err := lcConnPair(filepath.Dir(spec.Sock), spec.Tag)
 	if err != nil {
@@ -1752,6 +1781,18 @@ func lcChildWriteAfterTeardown(spec lcChildSpec) {
 	if a, err := sv.AcceptStream(); err == nil {
 		a.BufferReader().ReadBytes(1)
 	}
+	var g *vsGateT
+	flushed := make(chan error, 1)
+	if spec.Role == "flush-races-unmap" {
+		// park a Flush of the client inside queue.put: the stream state has been checked, the queue pointer is loaded
+		st.BufferWriter().WriteString("a")
+		g = vsGateArm("queue.put", 1)
+		go func() { flushed <- st.Flush(false) }()
+		if !g.waitHit(30 * time.Second) {
+			fmt.Println("gate queue.put not reached (is queue.put instrumented?)")
+			os.Exit(3)
+		}
+	}
 	sv.Close()
 	cl.Close()
 	for k := 0; k < 30000 && !(lcTornDown(cl) && lcTornDown(sv)); k++ {
@@ -1762,6 +1803,16 @@ func lcChildWriteAfterTeardown(spec lcChildSpec) {
 		os.Exit(3)
 	}
 	fmt.Println("torn-down")
+	if g != nil {
+		g.releaseGate()
+		select {
+		case err := <-flushed:
+			fmt.Println("survived", err)
+		case <-time.After(30 * time.Second):
+			fmt.Println("flush does not return")
+		}
+		os.Exit(0)
+	}
 	werr := st.BufferWriter().WriteString("z")
 	ferr := st.Flush(false)
 	fmt.Println("survived", werr, ferr)
@@ -1781,7 +1832,7 @@ func TestVS_LifecycleChild(t *testing.T) {
 	}
 	SetLogLevel(levelNoPrint)
 	debugMode = true
-	if spec.Role == "write-after-teardown" {
+	if spec.Role == "write-after-teardown" || spec.Role == "flush-races-unmap" {
 		lcChildWriteAfterTeardown(spec)
 	}
 	var conn net.Conn
@@ -1883,7 +1934,7 @@ func lcRunSchedule(sc *lcSchedule, mode, dir string, known map[string]bool) (res
 		w.destroy()
 	}()
 	debug.SetPanicOnFault(true)
-	if sc.Gate == "write-after-teardown" {
+	if sc.Gate == "write-after-teardown" || sc.Gate == "flush-races-unmap" {
 		w.childWitness()
 		return
 	}
@@ -1915,11 +1966,11 @@ func (w *lcWorld) runGate() {
 	switch w.sc.Gate {
 	case "open-in-close-window":
 		// park the closer after it has won the CAS on `shutdown` and before it stores shutdownErr
-		g := vsGateArm("Session.Close:lock", 1)
+		g := vsGateArm("Session.Close:LoadUint32", 1) // the atomic load in the log line right after the CAS
 		w.startClose("c1")
 		if !g.waitHit(lcWait) {
 			g.releaseGate()
-			w.res.Harness = "gate Session.Close:lock not reached"
+			w.res.Harness = "gate Session.Close:LoadUint32 not reached"
 			return
 		}
 		if !w.sv.IsClosed() {
